@@ -105,8 +105,16 @@ def reaching_def(fnode, use: ast.AST, name: str):
     chain = _block_chain(fnode, use_stmt)
     # dominating stores: statements earlier in one of the enclosing blocks
     dominating = []
+
+    def always(stmts):
+        """statements that are certainly executed when the block is: the block's own statements and,
+        recursively, the bodies of `with` statements among them"""
+        for s in stmts:
+            yield s
+            if isinstance(s, (ast.With, ast.AsyncWith)):
+                yield from always(s.body)
     for (blk, idx, _holder) in chain:
-        for s in blk[:idx]:
+        for s in always(blk[:idx]):
             for (st, val, kind) in sites:
                 if st is s:
                     dominating.append((st, val, kind))
